@@ -28,6 +28,14 @@ let () =
         | Err c -> Buffer.add_string buf ("err " ^ decimal_of_n c)
         | Panic -> Buffer.add_string buf "panic"
         | OutOfFuel -> Buffer.add_string buf "oof")
+     | ("bkdhcp6" | "bkrakick" | "bkl2gw") as e :: na :: _ ->
+       (* backlog scenarios: n frames against a pool of cap held workers (16 for the PPPoE DHCPv6 pool) *)
+       let a = nums na in
+       let n = List.nth a 0 in
+       let cap = if e = "bkdhcp6" then n_of_int 16 else List.nth a 1 in
+       (match run variant (n_of_int 70) [cap; n] [] with
+        | Ok toks -> Buffer.add_string buf (String.concat " " ("ok" :: List.map show_tok toks))
+        | _ -> Buffer.add_string buf "modelerror")
      | "fzsess" :: na :: bs ->
        (* whole-session path: only the dispatcher's panic is predicted *)
        let proto = match nums na with p :: _ -> p | [] -> N0 in
